@@ -309,7 +309,7 @@ def _crosshair(tier="quick"):
     t0 = time.time()
     res = {"paths": 0, "decisions": 0, "obligations": 0, "discharged": 0, "trivial": 0, "queries": 0, "solver_time": 0.0, "witness_validated": 0, "inconclusive": [], "spurious": [],
            "violations": [], "engine_errors": [], "samples": [], "stubs": [], "labels": [], "nontrivial_paths": 0, "budget": None}
-    d = tempfile.mkdtemp(prefix="vt-xh-")
+    d = tempfile.mkdtemp(prefix="vt-xh-", dir=os.environ.get("VT_SCRATCH") or None)
     try:
         path = os.path.join(d, "attrdict_contract.py")
         open(path, "w").write(XH)
